@@ -254,6 +254,19 @@ func classify(err error) string {
 	return "other: " + msg
 }
 
+// oneHeartbeat: a heartbeat at scripted time t, direct or over the wire.
+func (im *Impl) oneHeartbeat(inst string, t int64) error {
+	if im.w != nil {
+		before := time.Now()
+		if e := im.w.heartbeat(inst); e != nil {
+			return e
+		}
+		im.g.VerifC18RedateFresh(before, time.Now(), t)
+		return nil
+	}
+	return im.g.VerifC18Heartbeat(inst, t)
+}
+
 // apply runs one op on the real code. quota is the oracle handed to the model for a report: the
 // LimitItemConfigurations the real calculateNextQuota produced (C07's business, an input of the C18 model).
 func (im *Impl) apply(op Op) (out OutJ, quota []ItemJ, err error) {
@@ -376,6 +389,45 @@ func (im *Impl) apply(op Op) (out OutJ, quota []ItemJ, err error) {
 			}
 			out.Rs = append(out.Rs, a)
 		}
+	case "swarm":
+		// a crowd: every instance heartbeats, then reports `rounds` times for every upstream (what a fleet of gateways in
+		// front of many upstream clusters does); one group for the model, compared and judged at its end
+		for _, i := range op.Insts {
+			if e := im.oneHeartbeat(rig.UnHex(i), op.T); e != nil {
+				err = e
+				return
+			}
+		}
+		out.Swarm = [][]ItemJ{}
+		for r := 0; r < op.Rounds; r++ {
+			for _, i := range op.Insts {
+				for _, up := range op.Ups {
+					uu, ii := rig.UnHex(up), rig.UnHex(i)
+					cond := &proxyv1alpha1.RateLimitCondition{
+						ObjectMeta: metav1.ObjectMeta{Name: util.GenerateRateLimitConditionName(uu, ii)},
+						Spec: proxyv1alpha1.RateLimitSpec{UpstreamCluster: uu, Instance: ii,
+							LimitItemConfigurations: []proxyv1alpha1.RateLimitItemConfiguration{{Name: rig.UnHex(op.FC), Strategy: proxyv1alpha1.GlobalAllocateLimit,
+								LimitItemDetail: proxyv1alpha1.LimitItemDetail{MaxRequestsInflight: &proxyv1alpha1.MaxRequestsInflightFlowControlSchema{}}}}},
+						Status: proxyv1alpha1.RateLimitStatus{LimitItemStatuses: []proxyv1alpha1.RateLimitItemStatus{{Name: rig.UnHex(op.FC),
+							LimitItemDetail: proxyv1alpha1.LimitItemDetail{MaxRequestsInflight: &proxyv1alpha1.MaxRequestsInflightFlowControlSchema{}}}}},
+					}
+					var res *proxyv1alpha1.RateLimitCondition
+					var e error
+					if im.w != nil {
+						res, e = im.w.report(cond)
+					} else {
+						res, e = im.lim.UpdateRateLimitConditionStatus(uu, cond)
+					}
+					q := []ItemJ{}
+					if e == nil {
+						for _, it := range res.Spec.LimitItemConfigurations {
+							q = append(q, detailJ(it.Name, it.LimitItemDetail))
+						}
+					}
+					out.Swarm = append(out.Swarm, q)
+				}
+			}
+		}
 	case "faults":
 		if im.api != nil {
 			f := map[string]string{}
@@ -447,7 +499,13 @@ func (im *Impl) apply(op Op) (out OutJ, quota []ItemJ, err error) {
 }
 
 // modelOp is the op as the Lean driver reads it.
-func modelOp(op Op, quota []ItemJ, st *[2]int64, wireRejected bool) map[string]interface{} {
+func modelOp(op Op, quota []ItemJ, st *[2]int64, wireRejected bool, swarm [][]ItemJ) map[string]interface{} {
+	if op.Op == "swarm" {
+		if swarm == nil {
+			swarm = [][]ItemJ{}
+		}
+		return map[string]interface{}{"op": "swarm", "t": op.T, "insts": op.Insts, "ups": op.Ups, "rounds": op.Rounds, "fc": op.FC, "quotas": swarm}
+	}
 	if wireRejected {
 		// refused by the client or the HTTP endpoint before the limiter was asked: nothing may have been recorded
 		return map[string]interface{}{"op": "wireRejected"}
